@@ -25,7 +25,7 @@ def run(ctx):
     ctx.assume('thresholds never equal an attained best chi^2 (per point) and are finite and non-zero', 'every record has at least one fit (a best chi^2 exists)',
                'a zero-byte output file means no records')
     ctx.require_events('split:checked', 'metadata:checked')
-    ctx.require_regimes('all-good', 'all-bad', 'mixed', 'criterion:chi', 'criterion:cpd', 'names:auto', 'names:explicit', 'input:file', 'input:list',
+    ctx.require_regimes('input:name-re-used-with-another-set-up', 'all-good', 'all-bad', 'mixed', 'criterion:chi', 'criterion:cpd', 'names:auto', 'names:explicit', 'input:file', 'input:list',
                         'best:nan', 'best:inf', 'n_data=1', 'flag-4-points', 'nan-suffix', 'names:mixed', 'outputs:re-used-names', 'flags-changed-after-n_data-was-read', 'threshold:close-to-attained-value')
     d = ctx.newdir('c18')
     n_models, nb = 5, 8
@@ -40,8 +40,16 @@ def run(ctx):
     law = gen.build_law(lw, lc)
     k = O.ext_pattern(lw, lc, wav)
     fitter = gen.make_fitter(bn, np.ones(nb), md, law, (0.0, 30.0))
+    # a second set-up (another extinction law, tabulated with another number of rows): results of the two alternate, and some input
+    # files of consecutive calls carry the same name (a fit re-run with another set-up, filtered again)
+    lw2, lc2 = gen.make_law_arrays(rng, n=31, lo=0.04, hi=2500.0)
+    law2 = gen.build_law(lw2, lc2)
+    k_2 = O.ext_pattern(lw2, lc2, wav)
+    fitter_2 = gen.make_fitter(bn, np.ones(nb), md, law2, (0.0, 25.0))
+    fitter_1, k_1 = fitter, k
     n_calls = 60 if ctx.quick else 2000
     for ic in range(n_calls):
+        fitter, k = (fitter_1, k_1) if ic % 2 == 0 else (fitter_2, k_2)
         n_src = int(rng.integers(1, 11))
         infos = []
         for i in range(n_src):
@@ -88,6 +96,9 @@ def run(ctx):
                 ctx.regime('flags-changed-after-n_data-was-read')
             infos.append(info)
         path = os.path.join(d, 'in_%d.out' % ic)
+        if ic % 4 in (1, 2):
+            path = os.path.join(d, 'in_same_name.out')          # the name the previous / next call's input (other set-up) has, too
+            ctx.regime('input:name-re-used-with-another-set-up')
         fo = FitInfoFile(path, 'w')
         for inf in infos:
             fo.write(inf)
